@@ -84,6 +84,39 @@ checks = {
    tech="explicit-state model checking of the implementation (BFS over operation histories, model-state de-duplication) plus exhaustive file-prefix enumeration"),
 }
 
+# additions of seed round 8 (appended to the descriptions above)
+extra = {
+ "C01": "; two concurrent submitters while a reorganisation's announcement waits for a full subscriber buffer (one makes the side branch overtake, the other extends the chain that is still reported)",
+ "C02": "; (8) mined headers claiming the proof-of-work limit as the FIRST header of a new branch: off a fork that requires half the limit (refused, unknown afterwards) and off the main branch that requires the limit (accepted)",
+ "C04": "; sequence part: every verified block followed in one process by every case of up to 3 transactions, with a store that retains the list it is handed - every record is re-read after every download",
+ "C06": "; node-manager part: the real NodeManager.RequestTxs over three ready BitcoinNodes, any subset of them stopping (outgoing queue closed, not yet marked not-ready), all announcer sets of two transactions, three request windows of three polls: a transaction is only requested from a node that announced it, never twice from one node, at most once per window",
+ "C07": "; submissions with an already-cancelled context while the subscriber's buffer is full; a second submitter extending the still-reported chain during a waiting reorganisation",
+ "C08": "; restarts that are not preceded by a Save (while storage holds exactly the accepted headers) around marks of known and not-yet-seen hashes",
+ "C10": "; a header marked invalid between two cleans, regrowth past the heights already written, then pruning",
+ "C11": "; first start on empty storage with a configured invalid hash; legacy version-0 header files (2 / 1000 / 1001 headers, thorough also 999 / 2500) migrated by Load, with a configured invalid hash",
+ "C12": "; every crash image is loaded twice: with the default retained depth and with the smallest depth the production relation allows (everything above the lowest fork point of the accepted tree, at least 2 headers)",
+ "C13": "; sessions in which the transaction manager is attached while the node is running (at any point, to the node or through the node manager)",
+ "C19": "; best chains ending in an unconsolidated new branch of every length 2..22 (thorough ..41); a locator hash that is not on the best chain must be the base of a branch the repository tracks at that moment",
+ "C20": "; every arbitrary file loaded is followed by a score update of every held address, range queries, Save and Load",
+}
+# additions of seed round 9
+extra9 = {
+ "C02": "; (9) self-consistent chains near the proof-of-work limit (window work about 2^39) with block spacings 300..900 s, Branch.Target compared with the reference at every height 147..450 (thorough: 19 spacings, ..900)",
+ "C05": "; a store whose FetchBlockTxIDs fails once during the walk-back (round ends with an error) followed by a trigger a minute later",
+ "C06": "; one transaction per shard of the tx manager (first txid byte 0x00..0xff): one poll after the timeout must offer all 256 to the second announcer",
+ "C07": "; submissions reaching a multiple of 10000 with the 1st..6th storage call of the automatic clean failing",
+ "C11": "; equal-work tips are compared by identity (a restart must not change which of them is reported)",
+ "C12": "; a Save whose every storage call was made counts as the last completed Save for its own final image",
+ "C13": "; sessions in which the peer waits out the node's 3 s handshake timer (after nothing, after version, after verack) and then continues",
+ "C16": "; blocks of 1100 transactions (more than the 1000-entry hand-over channel): healthy, processor error, wrong block, each with and without Cancel, in the real-node layer",
+ "C17": "; two marks on doubly nested forks next to an unrelated earlier branch (6 headers)",
+ "C18": "; mark, growth and pruning at depth 2 (removed blocks' hashes below what the main branch holds in memory)",
+}
+for k, v in extra.items():
+    checks[k]["text"] += v
+for k, v in extra9.items():
+    checks[k]["text"] += v
+
 hook_commits = subprocess.run("git -C /repo log --format=%h --grep='verif-tagged' --grep='verif hook' -i", shell=True, capture_output=True, text=True).stdout.split()
 
 engines = {}
